@@ -103,11 +103,31 @@ def init_desc(line):
     head = line.split(' | ')[0].partition(' # ')[0]
     return head[len('init '):]
 
-def model_case(case, init):
-    """model driver input: the case + the implementation's description of the parsed documents"""
+def table_facts(line):
+    """`F<i>:<facts>` per X op (record i + 1 of the implementation's line): the string facts of
+    Model/StoreView.v (normalised attribute values, replacement texts of entity references, by handle)
+    that the model driver needs to print the table of the same state"""
+    out = []
+    if ' | x:' not in line:
+        return out
+    for i, r in enumerate(line.split(' | ')[1:]):
+        if r.startswith('x:'):
+            f = r.partition(' ')[0].split(':')
+            if len(f) >= 4:
+                out.append('F%d:%s' % (i, f[2]))
+    return out
+
+def model_case(case, init, impl_line=None):
+    """model driver input: the case + the implementation's description of the parsed documents
+    (+ the string facts of the X ops, see table_facts)"""
     w = case.split(' ')
     nd = int(w[1])
-    return ' '.join(w[:2] + ['@' + init.replace(' ', ';')] + w[2 + nd:])
+    desc = init.replace(' ', ';')
+    if impl_line is not None:
+        tf = table_facts(impl_line)
+        if tf:
+            desc += ';' + ';'.join(tf)
+    return ' '.join(w[:2] + ['@' + desc] + w[2 + nd:])
 
 # ------------------------------------------------------------------ C12 oracle
 TEXTISH = ('tx', 'cd', 'cr', 'er')
@@ -295,6 +315,114 @@ def query_violation(rec):
                 % (a, b, '; equal once such nodes are ignored' if a2 == b2 else ''))
     return ('query', 'edited document selects ranks %s, re-parsed serialisation selects %s' % (a, b))
 
+# ------------------------------------------------------------------ the table tie (X ops, Model/StoreView.v)
+TABLE_FIELDS = ('kind', 'id', 'key', 'parent', 'children', 'attrs', 'nss', 'name', 'data')
+
+def parse_table(word):
+    """`<n>+<row>+...` -> list of rows (9 fields each) | None (builder panicked / malformed)"""
+    f = word.split('+')
+    if not f[0].isdigit():
+        return None
+    rows = [r.split(';') for r in f[1:]]
+    if len(rows) != int(f[0]) or any(len(r) != 9 for r in rows):
+        return None
+    return rows
+
+def show_row(r):
+    if r is None:
+        return '<no such row>'
+    def txt(x):
+        return x if x in ('-', '~', '!', 'E') else repr(dec(x))
+    nm = r[7] if r[7] in ('!', 'E') else '/'.join(txt(x) for x in r[7].split('/'))
+    return '%s id=%s key=%s parent=%s children=%s attrs=%s nss=%s name=%s data=%s' % (r[0], r[1], r[2], r[3], r[4], r[5], r[6], nm, txt(r[8]))
+
+def table_limit(facts, rows):
+    """the known limits of the view of Model/StoreView.v, decided on the IMPLEMENTATION's table: reason | None"""
+    if any(r[0] == 'At' and r[1] == '~' for r in rows):
+        return 'dtd-default-attribute'          # materialised default (id 0): outside the store model
+    if any(r[6] == 'E' or r[7] == 'E' or r[8] == 'E' for r in rows):
+        # DataErr / XNameErr / n_nss = None in the table itself.  A failing FACT alone (`r<h>=E`: the reference is not
+        # part of a merged text of this table, e.g. raw view) is no reason to skip: the model does not use it then
+        return 'failing-string-observation'
+    return None
+
+def table_tie(impl_line, model_line):
+    """the X ops of one history: [(record index, view, status, detail)], status =
+    'equal' | 'equal-no-document-element' | 'skip:<limit>' | 'skip:history-diverged' | 'diff';
+    detail = (rows compared) for equal, a dict describing the first differing row for diff"""
+    out = []
+    a, b = impl_line.split(' | '), model_line.split(' | ')
+    if not any(r.startswith('x:') for r in a):
+        return out
+    mm = first_mismatch(impl_line, model_line)
+    for i, x in enumerate(a):
+        if not x.startswith('x:'):
+            continue
+        fx = x.partition(' ')[0].split(':')
+        view = fx[1] if len(fx) > 1 else '?'
+        if mm is not None and mm < i:
+            out.append((i, view, 'skip:history-diverged', None)); continue
+        y = b[i] if i < len(b) else '<missing>'
+        fy = y.partition(' ')[0].split(':')
+        ti = parse_table(fx[3]) if len(fx) == 4 else None
+        tm = parse_table(fy[2]) if len(fy) == 3 and fy[0] == 'x' and fy[1] == view else None
+        if ti is None or tm is None:
+            out.append((i, view, 'diff', {'row': None, 'field': 'table', 'impl': (fx[3] if len(fx) == 4 else x)[:200], 'model': y.partition(' ')[0][:200]}))
+            continue
+        lim = table_limit(fx[2], ti)
+        if lim:
+            out.append((i, view, 'skip:' + lim, len(ti))); continue
+        d = None
+        for k in range(max(len(ti), len(tm))):
+            ri = ti[k] if k < len(ti) else None
+            rm = tm[k] if k < len(tm) else None
+            if ri != rm:
+                fld = 'row-count' if ri is None or rm is None else next(TABLE_FIELDS[j] for j in range(9) if ri[j] != rm[j])
+                d = {'row': k, 'field': fld, 'impl': show_row(ri), 'model': show_row(rm), 'rows_impl': len(ti), 'rows_model': len(tm)}
+                break
+        if d is not None:
+            out.append((i, view, 'diff', d)); continue
+        has_root = any(r[0] == 'El' and r[3] == '0' for r in ti)
+        out.append((i, view, 'equal' if has_root else 'equal-no-document-element', len(ti)))
+    return out
+
+def with_tables(ops, every=4, docs=1):
+    """X ops (both views, every document) after every `every`-th op and at the end of the history"""
+    xs = [('X', d, v) for d in range(docs) for v in (0, 1)]
+    out = []
+    for i, o in enumerate(ops):
+        out.append(o)
+        if (i + 1) % every == 0 and i + 1 < len(ops):
+            out += xs
+    return out + xs
+
+def analyse_tables(cases, impl_lines, model_lines, T, tag):
+    """cases: (docs, ops, view) whose ops hold X ops; T: the 'tables' summary"""
+    H = T['hist']
+    seen = T.setdefault('_seen', set())
+    for (docs, ops, view), il, ml in zip(cases, impl_lines, model_lines):
+        if ' # ' not in il or ' # ' not in ml:
+            H['no-output'] = H.get('no-output', 0) + 1
+            continue
+        for i, v, status, det in table_tie(il, ml):
+            H[status] = H.get(status, 0) + 1
+            H['view:' + v] = H.get('view:' + v, 0) + 1
+            if status.startswith('equal'):
+                T['compared'] += 1; T['rows'] += det
+                T['max_rows'] = max(T['max_rows'], det)
+                word = il.split(' | ')[i].partition(' ')[0].split(':')[3]
+                k = hash((v, word))
+                if k not in seen:
+                    seen.add(k); T['distinct_tables'] += 1
+                    if 'Ns;' in word.replace('Ns;~;', ''): T['distinct_tables_with_declared_namespaces'] += 1
+                    if '+Xt;' in word: T['distinct_tables_with_merged_text'] += 1
+            elif status == 'diff':
+                T['compared'] += 1
+                if len(T['diffs']) < 40:
+                    T['diffs'].append(dict(det, docs=docs, ops=[list(o) for o in ops[:i]], view=view, table_view=v, tag=tag))
+            else:
+                T['skipped'] += 1
+
 # ------------------------------------------------------------------ running
 def run_cases(binary, cases, shards=None, timeout=900):
     shards = shards or min(lib.NPROC, 16)
@@ -305,7 +433,7 @@ def run_impl(cases, shards=None):
     return run_cases(lib.rust_bin(), cases, shards)
 
 def run_model(cases, impl_lines, shards=None):
-    mc = [model_case(c, init_desc(l)) if ' # ' in l else 'skip' for c, l in zip(cases, impl_lines)]
+    mc = [model_case(c, init_desc(l), l) if ' # ' in l else 'skip' for c, l in zip(cases, impl_lines)]
     return run_cases(lib.model_bin('dom'), mc, shards)
 
 def strip_init(line):
@@ -329,7 +457,8 @@ def first_mismatch(impl_line, model_line):
     for i in range(max(len(a), len(b))):
         x = a[i] if i < len(a) else '<missing>'
         y = b[i] if i < len(b) else '<missing>'
-        if x.startswith('q:') and y.startswith('q'):
+        if (x.startswith('q:') and y.startswith('q')) or (x.startswith('x:') and y.startswith('x:')):
+            # Q results are implementation-only; the tables of the X ops are compared by table_tie
             x = x.partition(' # ')[2]; y = y.partition(' # ')[2]
         if y.startswith('diverged'):
             return None       # the model stops where a listed finding makes the state unknowable
@@ -347,6 +476,9 @@ DOCS = [
     '<r xmlns:p="u1"><a xmlns:p="u2"><w><p:x p:k="1"/>t</w></a><b><p:y/>s<z i="1" j="2"/></b><c xmlns="d"><e/></c></r>',
 ]
 SMALL = '<r><a x="1">t</a><b/></r>'
+# a DTD-defaulted attribute (materialised with id 0): outside the store model; used only by the table tie, where its
+# tables are skipped EXPLICITLY (skip:dtd-default-attribute)
+DEFAULTED = '<!DOCTYPE r [<!ATTLIST a d CDATA "v">]><r><a x="1"/><b/></r>'
 
 NAMES = ['e', 'f', 'x', 'k', 'n:m', 'xmlns:q', 'xmlns']
 BADNAMES = ['1a', '', 'a b']
@@ -694,7 +826,8 @@ QUERIES = ['//node()', '//*', '//@*', '//text()', '/*/*[last()]', '/*/*[1]/follo
 def source_hash():
     h = hashlib.sha256()
     for f in ('checks/domlib.py', 'harness/src/domains/dom.rs', 'ocaml/domains/dom/dom.ml', 'coq/theories/Model/Store.v',
-              'coq/theories/Model/DomOps.v', 'coq/theories/Model/StoreCheck.v'):
+              'coq/theories/Model/DomOps.v', 'coq/theories/Model/StoreCheck.v', 'coq/theories/Model/StoreView.v',
+              'coq/theories/Model/XDoc.v', 'harness/src/domains/xpath.rs'):
         try: h.update(open(os.path.join(lib.VERIF, f), 'rb').read())
         except OSError: pass
     return h.hexdigest()[:12]
@@ -791,6 +924,7 @@ def campaign(run, log=lib.log):
     t0 = time.time()
     # (a) the single-call matrix from one rich state
     docs, pre, calls = matrix_cases()
+    mdocs, mpre, mcalls = docs, pre, calls
     cases = [(docs, pre + [c], 'r!%d' % len(pre)) for c in calls]
     lines = [mkcase(*c) for c in cases]
     il = run_impl(lines); ml = run_model(lines, il)
@@ -846,7 +980,38 @@ def campaign(run, log=lib.log):
     lines = [mkcase(*c) for c in QH]
     il = run_impl(lines)
     analyse(QH, il, None, summary, memo, 'queries')
-    summary['times']['queries'] = round(time.time() - t0, 1)
+    summary['times']['queries'] = round(time.time() - t0, 1); t0 = time.time()
+    # (f) the tie of Model/StoreView.v (the C14 bridge): the evaluator's document table of the EDITED documents, built by
+    # the table builder of the xpath domain on the implementation (op X) and by the extracted xdoc_of_store on the model's
+    # store after the same ops, both views, compared row by row and field by field (no dumps: the histories themselves
+    # are compared in (a)-(c)).  Histories: the random ones (tables after every 4th op and at the end, every document),
+    # the single-call matrix from the rich state (tables of both documents after the call), and every single edit / sampled
+    # pairs of edits of the small alphabet on the namespace-heavy, the entity and the mixed-content documents (and single
+    # edits of a document with a DTD-defaulted attribute, whose tables are outside the view: skipped and counted).
+    T = {'hist': {}, 'compared': 0, 'rows': 0, 'max_rows': 0, 'distinct_tables': 0, 'distinct_tables_with_declared_namespaces': 0,
+         'distinct_tables_with_merged_text': 0, 'diffs': [], 'skipped': 0, 'histories': 0}
+    TH = [(d, with_tables(o, every=(2 if thorough else 4), docs=len(d)), v.split('!')[0] + '!9999') for d, o, v in H]
+    TH += [(mdocs, with_tables(mpre + [c], every=len(mpre) + 2, docs=2), 'r!9999') for c in mcalls[::(1 if thorough else 3)]]
+    for tdoc in (DOCS[5], DOCS[2], DOCS[1], DEFAULTED):
+        rec0t = parse_line(run_impl([mkcase([tdoc], [])], shards=1)[0])[0]
+        alpha_t = short_alphabet(rec0t, [tdoc])
+        TH += [([tdoc], with_tables([o], every=9), 'r!9999') for o in alpha_t]
+        if tdoc == DEFAULTED:
+            continue      # outside the store model: only there to exercise (and count) the explicit skip
+        pairs = [(a, b) for a in alpha_t[::7] for b in alpha_t[::7]]
+        for a, b in rng.sample(pairs, min(8000 if thorough else 400, len(pairs))):
+            TH.append(([tdoc], with_tables([a, b], every=1), 'm!9999'))
+    T['histories'] = len(TH)
+    for k in range(0, len(TH), 20000):
+        chunk = TH[k:k + 20000]
+        lines = [mkcase(*c) for c in chunk]
+        il = run_impl(lines); ml = run_model(lines, il)
+        analyse_tables(chunk, il, ml, T, 'tables')
+    T.pop('_seen', None)
+    summary['tables'] = T
+    for d, o, v in TH[:1]:
+        summary['samples'].append({'kind': 'history with table dumps (X ops)', 'documents': d, 'view': v, 'ops': [show_op(x) for x in o]})
+    summary['times']['tables'] = round(time.time() - t0, 1)
     summary['nontrivial'] = len(summary['nontrivial'])
     os.makedirs(lib.WORK, exist_ok=True)
     tmp = '%s.%d.tmp' % (path, os.getpid())       # atomic: another check may read the cache while it is written
@@ -895,6 +1060,39 @@ def shrink_mismatch(m):
     g = dict(m); g['ops'] = [list(o) for o in small]; g['shrunk_from'] = len(ops)
     return g
 
+def table_diffs_of(docs, ops, view):
+    """the differing tables of a history (X ops appended at the end when it has none)"""
+    ops = list(ops)
+    if not any(o[0] == 'X' for o in ops):
+        ops = with_tables(ops, every=10 ** 9, docs=len(docs))
+    c = mkcase(docs, ops, view.split('!')[0] + '!9999')
+    il = run_impl([c], shards=1)
+    if not il or ' # ' not in il[0]: return ops, []
+    ml = run_model([c], il, shards=1)
+    if not ml or ' # ' not in ml[0]: return ops, []
+    return ops, [(i, v, det) for i, v, st, det in table_tie(il[0], ml[0]) if st == 'diff']
+
+def shrink_table_diff(m):
+    """smallest history (edits only, tables dumped at the end) after which the two tables still differ"""
+    docs, view = m['docs'], m['view'].split('!')[0]
+    edits = [tuple(o) for o in m['ops'] if o[0] != 'X']
+    def fails(cand):
+        return bool(table_diffs_of(docs, cand, view)[1])
+    if not fails(edits):
+        return m
+    small = [] if fails([]) else (refine(docs, ddmin(edits, fails), view, fails) if len(edits) > 1 else edits)
+    ops, ds = table_diffs_of(docs, small, view)
+    if not ds:
+        return m
+    i, v, det = ds[0]
+    return dict(m, **dict(det, ops=[list(o) for o in ops[:i]], table_view=v, shrunk_from=len(edits)))
+
+def describe_table_diff(d):
+    where = 'the tables differ as a whole' if d.get('row') is None else 'first differing row %s, field %s' % (d['row'], d['field'])
+    return ('view %s: %s: implementation [%s] model [%s] after %s on %s'
+            % ({'0': 'raw', '1': 'merged'}.get(str(d.get('table_view')), d.get('table_view')), where, d.get('impl'), d.get('model'),
+               ' ; '.join(show_op(tuple(o)) for o in d['ops']) or '(no op)', d['docs']))
+
 def describe_failure(f):
     return '%s after %s on %s' % (f.get('detail', f.get('clause', 'mismatch')), ' ; '.join(show_op(tuple(o)) for o in f['ops']) or '(no op)', f['docs'])
 
@@ -912,13 +1110,20 @@ def replay_file(path, prop):
     ml = run_model([case], il, shards=1)
     for i, r in enumerate(parse_line(il[0]) or []):
         op = show_op(ops[i - 1]) if i > 0 else 'init'
-        print('%2d %-40s -> %s' % (i, op, r.result))
+        print('%2d %-40s -> %s' % (i, op, r.result if len(r.result) < 100 else r.result[:60] + '...'))
         for c, det in (c12_violations(r) + c14_violations(r)):
             print('      %s: %s' % (c, det))
         qv = query_violation(r)
         if qv: print('      %s: %s' % qv)
     if ml:
         print('model vs implementation: first differing record =', first_mismatch(il[0], ml[0]))
+        for i, v, status, det in table_tie(il[0], ml[0]):
+            print('table of record %d (%s view; xdoc_of_store of the model vs Table::build on the implementation): %s'
+                  % (i, {'0': 'raw', '1': 'merged'}.get(v, v), status))
+            if status == 'diff':
+                print('      first differing row %s, field %s' % (det.get('row'), det.get('field')))
+                print('      implementation: %s' % det.get('impl'))
+                print('      model:          %s' % det.get('model'))
     print('implementation line:'); print(il[0][:2000])
     if ml: print('model line:'); print(ml[0][:2000])
     return 0
